@@ -138,7 +138,7 @@ def run_instance(inst):
         for n in nodes:
             y, x = E.lift(v['coords'][n][0]), E.lift(v['coords'][n][1])
             agree = (n in na) == (n in nb_)
-            if kind == 'box_exact':
+            if True:   # since the all_nodes(bb) repair (410a4d5) the SQLite listing filters on the exact coordinates
                 # representable coordinates: no rounding in the index, the two listings must agree exactly (borders included)
                 cl.append((f'box_listing_agrees_exactly_on_node_{n}', z3.BoolVal(agree)))
             else:
@@ -202,9 +202,8 @@ def concrete_compare(gname, cc, box, cpath, fam):
                         for n in set(na) ^ set(nb_):
                             y, x = cc[n]
                             band = lambda v, lo, hi: min(abs(v - lo), abs(v - hi)) <= 2.0 ** -21 * max(abs(lo), abs(hi), abs(v)) + 2.0 ** -21
-                            representable = float(_np.float32(y)) == y and float(_np.float32(x)) == x
-                            if representable or not (band(y, box[0], box[2]) or band(x, box[1], box[3])):
-                                return f"all_nodes(bb={box}): in-memory {na} vs sqlite {nb_} (node {n} at {cc[n]}: float32-representable or not on the border)"
+                            if True:
+                                return f"all_nodes(bb={box}): in-memory {na} vs sqlite {nb_} (node {n} at {cc[n]})"
                     if cpath is not None:
                         res = []
                         for mp in (a, b):
